@@ -986,6 +986,10 @@ class TransactionEvaluator:
         left = self.evaluate(node.left)
         right = self.evaluate(node.right)
 
+        # "%s" % (x for x in rows) would format the generator object itself
+        if isinstance(right, types.GeneratorType):
+            right = list(right)
+
         if isinstance(node.op, ast.Add):
             return left + right
         if isinstance(node.op, ast.Sub):
@@ -1279,7 +1283,10 @@ class TransactionEvaluator:
         """Recursively evaluate nested comprehension loops."""
         if index >= len(generators):
             # All loops done, evaluate the element expression
-            result.append(self.evaluate(element_expr))
+            value = self.evaluate(element_expr)
+            if isinstance(value, types.GeneratorType):
+                value = list(value)  # a list never holds live generator objects
+            result.append(value)
             return
 
         comp = generators[index]
@@ -1327,7 +1334,10 @@ class TransactionEvaluator:
     ):
         """Recursively yield values from nested generator loops."""
         if index >= len(generators):
-            yield self.evaluate(element_expr)
+            value = self.evaluate(element_expr)
+            if isinstance(value, types.GeneratorType):
+                value = list(value)
+            yield value
             return
 
         comp = generators[index]
